@@ -178,7 +178,8 @@ func (t *c08Tok) entry(pb restic.PackBlob) c08Entry {
 	}
 	p, ok := t.pack[pb.PackID()]
 	if !ok {
-		p = "?" + pb.PackID().Str()
+		pid := pb.PackID()
+		p = "?" + pid.Str()
 	}
 	e := c08Entry{b, p, "?", u(pb.CiphertextLength()), "?", u(pb.PlaintextLength())}
 	if ppb, ok := pb.(*pack.PackedBlob); ok {
@@ -222,12 +223,16 @@ func TestVerif_C08(t *testing.T) {
 	defer recs.Close()
 	ctx := context.Background()
 	base := TestRepository(t)
+	enc, dec := base.getZstdEncoder(), base.getZstdDecoder()
 	open := func(be *mem.MemoryBackend) *Repository {
 		r, err := New(be, Options{})
 		if err != nil {
 			t.Fatal(err)
 		}
 		r.key, r.keyID, r.cfg = base.key, base.keyID, base.cfg
+		// share the (concurrency-safe, expensive to create) zstd coder of the base repository
+		r.allocEnc.Do(func() { r.enc = enc })
+		r.allocDec.Do(func() { r.dec = dec })
 		return r
 	}
 	tok := newC08Tok()
@@ -259,7 +264,7 @@ func TestVerif_C08(t *testing.T) {
 		layouts = append(layouts, c08RandomLayout(r))
 		names = append(names, fmt.Sprintf("random%d", i))
 	}
-	budget := kit.Pick(1500, 1<<30) // replays in the quick tier
+	budget := kit.Pick(1200, 1<<30) // replays in the quick tier
 	stride := 1
 	if len(hists)*len(layouts) > budget {
 		stride = (len(hists)*len(layouts) + budget - 1) / budget
